@@ -80,6 +80,8 @@ def fresh_process_state():
     global _SNAPSHOT
     import copy
     import ssh_audit.ssh_audit  # noqa: F401  (imports the whole package)
+    if _hangs_seen[0]:
+        _replace_held_locks()
     if _SNAPSHOT is None:
         _SNAPSHOT = []
         ids = set()
@@ -108,6 +110,23 @@ def fresh_process_state():
 _hangs_seen = [0]
 
 
+def _replace_held_locks():
+    """After a run of this process was cut off, threads of that run may sit blocked for good while holding (or having
+    left locked) a module- or class-level lock of the package; a new interpreter would start with free ones."""
+    lock_types = (type(threading.Lock()), type(threading.RLock()))
+    for name, mod in list(sys.modules.items()):
+        if not name.startswith('ssh_audit') or mod is None:
+            continue
+        owners = [mod] + [v for v in vars(mod).values() if isinstance(v, type) and getattr(v, '__module__', '') == name]
+        for o in owners:
+            for k, v in list(vars(o).items()):
+                if isinstance(v, lock_types):
+                    try:
+                        setattr(o, k, type(v)() if not isinstance(v, type(threading.Lock())) else threading.Lock())
+                    except Exception:
+                        pass
+
+
 class _Watchdog:
     """SIGALRM based guard for the (single-threaded) in-process run; 0 disables.  Runs take milliseconds, so once a
     run of this process has been cut off by the watchdog the following ones get a tenth of the time: a change that makes
@@ -123,7 +142,9 @@ class _Watchdog:
                 _hangs_seen[0] += 1
                 raise fakenet.HarnessHang('wall-clock watchdog (%ds)' % self.seconds)
             self.old = signal.signal(signal.SIGALRM, h)
-            signal.setitimer(signal.ITIMER_REAL, self.seconds)
+            # repeating: the first alarm may be swallowed by clean-up code that waits again (an executor joining
+            # worker threads which are blocked for good); every further one interrupts that wait as well
+            signal.setitimer(signal.ITIMER_REAL, self.seconds, 3)
         return self
 
     def __exit__(self, *a):
@@ -157,6 +178,7 @@ def run_cli(argv, net, watchdog=120, fresh=True):
                 if not isinstance(code, int) and code is not None:
                     print(code, file=sys.stderr)
             except fakenet.HarnessHang as e:
+                signal.setitimer(signal.ITIMER_REAL, 0)
                 res.hang = str(e)
                 code = -9
             except Exception as e:   # what ssh-audit.py does
